@@ -814,12 +814,43 @@ let c29 = function
     end
   | _ -> "FAIL malformed case"
 
+(* C18 *)
+let occ_of_sx = function
+  | L [t; k; la] ->
+    let kind = function 0 -> TermIndex.K_Legacy | 1 -> TermIndex.K_Regex | _ -> TermIndex.K_Raw in
+    let la' = (match la with
+        | A "none" -> None
+        | L [p; lt; lk] -> Some ((int_of_sx p = 1, ns_of_sx lt), kind (int_of_sx lk))
+        | _ -> failwith "la") in
+    ((ns_of_sx t, kind (int_of_sx k)), la')
+  | _ -> failwith "occurrence"
+
+let c18 = function
+  | [_; A "panic"] -> "FAIL key=panic the pipeline panicked"
+  | [_; L [A why]] -> "OK 0 " ^ why
+  | [_; L ordered; L claims; L scanner] ->
+    let ord = Stdlib.List.map occ_of_sx ordered in
+    let cl = Stdlib.List.map (function L [o; i] -> (occ_of_sx o, n_of_int (int_of_sx i)) | _ -> failwith "claim") claims in
+    let sc = ints_of_sx (L scanner) in
+    let mixed = Stdlib.List.exists (fun ((t, k), l) -> Stdlib.List.exists (fun ((t', k'), l') -> t = t' && (k <> k' || l <> l')) ord) ord in
+    if not (TermIndex.table_nodup_check ord) then "FAIL key=terminal-table-duplicate the terminal table lists the same terminal twice"
+    else if sc <> Stdlib.List.mapi (fun i _ -> i + 5) ord then "FAIL key=scanner-numbering the scanner terminals are not numbered 5, 6, ... in table order"
+    else if not (TermIndex.terminal_agreement_check ord cl) then begin
+      let bad = Stdlib.List.find (fun c -> not (TermIndex.terminal_agreement_check ord [c])) cl in
+      let (((t, _), _), i) = bad in
+      Printf.sprintf "FAIL key=production-table-index%s the production table uses token number %d for terminal %s, which is a different terminal in the scanner / lookahead tables"
+        (if mixed then "-mixed-quoting" else "") (int_of_n i) (show_word t)
+    end
+    else Printf.sprintf "OK %d %s" (if mixed then 1 else 0) (if mixed then "equal-text-different-kind-or-lookahead" else "plain")
+  | _ -> "FAIL malformed case"
+
 let dispatch (sx : Sexp.t) : string =
   match sx with
   | L (A "lev" :: args) -> c31 args
   | L (A "eval" :: args) -> c08 args
   | L (A "aug" :: args) -> c12 args
   | L (A "wf" :: args) -> c11 args
+  | L (A "tix" :: args) -> c18 args
   | L (A "diag" :: args) -> c29 args
   | L (A "ll" :: args) -> c01 args
   | L (A "p2o" :: args) -> c30_p2o args
